@@ -12,13 +12,22 @@ import mir, sym, opkernels as K, opcheck as Q
 
 
 def all_cases():
+    """(level, op, kinds).  Level 'instr' = through the interpreter instruction (dispatch + kernel); level 'fn' = the
+    by-reference operator impl directly (the route `bin_op_assign` takes for + - * / %)."""
     cases = []
-    for op in K.BINOPS:
+    for op in K.ARITH:
         for k1 in K.KINDS:
             for k2 in K.KINDS:
-                cases.append((op, (k1, k2)))
+                cases.append(("fn", op, (k1, k2)))
+    for op in K.BINOPS + ["nequals"]:
+        for k1 in K.KINDS:
+            for k2 in K.KINDS:
+                cases.append(("instr", op, (k1, k2)))
     for k in K.KINDS:
-        cases.append(("negate", (k,)))
+        cases.append(("instr", "negate", (k,)))
+    for op in K.BOOLOPS + ["equals", "nequals"]:
+        cases.append(("instr", op, ("Bool", "Bool")))
+    cases.append(("instr", "not", ("Bool",)))
     return cases
 
 
@@ -31,8 +40,8 @@ def run_profile(scratch, nat, release, prop, tier, qs, info):
     info["functions"][profile] = ker.encoded_functions()
     t = time.time()
     summaries = []
-    for op, kinds in all_cases():
-        summaries.append(ker.summarize(op, list(kinds)))
+    for level, op, kinds in all_cases():
+        summaries.append(ker.summarize_instr(op, list(kinds)) if level == "instr" else ker.summarize(op, list(kinds)))
     info["summaries_s"][profile] = round(time.time() - t, 2)
     info["paths"][profile] = sum(len(s.paths) for s in summaries)
     info["executor"][profile] = {k: v for k, v in ker.ex.stats.items() if k != "inlined"}
@@ -59,7 +68,7 @@ def run_profile(scratch, nat, release, prop, tier, qs, info):
     log("  [%s] %d obligations so far, %d candidate findings, %.1fs" % (profile, qs.obligations, len(findings), time.time() - t))
     # native replay of every witness
     if findings:
-        vecs = [("w%d" % i, f.op, f.witness) for i, f in enumerate(findings)]
+        vecs = [("w%d" % i, f.native_op, f.witness) for i, f in enumerate(findings)]
         res = nat.eval(vecs, release)
         for i, f in enumerate(findings):
             f.native = list(res["w%d" % i])
@@ -205,7 +214,7 @@ def replay(prop, path):
     scratch = V.Scratch("replay")
     nat = N.NativeBytecode(scratch)
     w = [(k, int(v, 16) if isinstance(v, str) else v) for k, v in d["witness"]]
-    res = nat.eval([("r0", d["fn"], w)], d["profile"] == "release")["r0"]
+    res = nat.eval([("r0", d.get("native_op", d["fn"]), w)], d["profile"] == "release")["r0"]
     print("replay %s %s[%s] witness=%s -> %s (recorded: %s)" % (prop, d["fn"], d["arm"], d["witness"], list(res), d["native"]))
     f = Q.Finding(d["property"], d["fn"], d["arm"], d["class"], d["profile"], w, d["detail"], None)
     f.native = list(res)
